@@ -67,6 +67,9 @@ func Configs(quick bool) []NamedConfig {
 		out = out[:1]
 	}
 	out = append(replicaOnlyConfigs(quick), out...)
+	if IncludeLate {
+		out = append(lateConfigs(quick), out...) // completes in well under a minute: before the placements a deadline cuts
+	}
 	out = append(fiveNodeConfigs(quick), out...) // the cheap configuration first: a deadline must not cut it
 	return out
 }
@@ -88,6 +91,28 @@ func replicaOnlyConfigs(quick bool) []NamedConfig {
 			c.ReplicaOnly = true
 			out = append(out, c)
 			if quick {
+				break
+			}
+		}
+	}
+	return out
+}
+
+// lateConfigs: n=4 equal power where the Byzantine node leads round 0 of the base root height AND round 0 of the next
+// one, with honest leaders in round 1 of both: the placement in which a leader message of (rh, 0) that arrived late can
+// meet a round 0 again after a root-chain update. These configurations carry Config.Late (timing scenarios, stored
+// leader messages in the state key).
+func lateConfigs(quick bool) []NamedConfig {
+	base := Config{Powers: []uint64{1, 1, 1, 1}, Byz: 0, BaseRH: 2, Timeouts: eqTimeouts(10)}
+	probe := New(base)
+	var out []NamedConfig
+	for rh := uint64(2); rh <= 60; rh++ {
+		l0, l1, b0, b1 := probe.PredictLeader(rh, 0), probe.PredictLeader(rh, 1), probe.PredictLeader(rh+1, 0), probe.PredictLeader(rh+1, 1)
+		if l0 == b0 && l1 != l0 && b1 != l0 {
+			c := base
+			c.BaseRH, c.Byz, c.Late = rh, l0, true
+			out = append(out, NamedConfig{Name: fmt.Sprintf("n4-equal-byz%d-rh%d-late", l0, rh), Cfg: c})
+			if quick || len(out) == 3 {
 				break
 			}
 		}
@@ -139,7 +164,7 @@ func changeBase(t [7]int) []NamedConfig {
 }
 
 func ConfigByName(name string) (NamedConfig, bool) {
-	for _, c := range append(append(append(allConfigs(), fiveNodeConfigs(false)...), NegativeControl()), ChangeConfigs()...) {
+	for _, c := range append(append(append(append(allConfigs(), fiveNodeConfigs(false)...), NegativeControl()), ChangeConfigs()...), lateConfigs(false)...) {
 		if c.Name == name {
 			return c, true
 		}
@@ -160,6 +185,10 @@ func NegativeControl() NamedConfig {
 	}
 	return NamedConfig{Name: fmt.Sprintf("n5-weighted31111-byz0-rh%d-NEGATIVE", rh), Cfg: Config{Powers: []uint64{3, 1, 1, 1, 1}, Byz: 0, BaseRH: rh, Timeouts: eqTimeouts(10)}, Negative: true}
 }
+
+// IncludeLate adds the Late configurations (timing scenarios) to Configs: C01 always, C15 in the thorough tier;
+// C14's equivocation profile has no use for them.
+var IncludeLate bool
 
 type stateRec struct {
 	cfg  string
@@ -184,11 +213,16 @@ func Main(id string) {
 	cfgFlag := flag.String("config", "", "only this configuration")
 	traceFlag := flag.Bool("trace", false, "print the trace when replaying")
 	reducedFlag := flag.Bool("reduced", false, "thorough tier: reduced alphabet, deeper")
-	r := mc.Start(id, "model_checking", 95*time.Second, 28*time.Minute)
+	noDevFlag := flag.Bool("nodev", false, "development aid: skip the message-level searches")
+	quickBudget := 95 * time.Second
+	if id == "C01" {
+		quickBudget = 130 * time.Second // the Late configuration (fourth session) brought its own share
+	}
+	r := mc.Start(id, "model_checking", quickBudget, 28*time.Minute)
 	r.Assumptions = []string{
 		"committee-preserving root-chain updates: the mock controller serves the same committee at every root height",
 		"the FSM is abstracted: the mock controller accepts every structurally valid proposal (CheckProposalBasic + the real ValidateByzantineEvidence)",
-		"Search 1 explores round-granular scenarios in lockstep virtual time (all phase timeouts equal); messages not delivered within their round are lost",
+		"Search 1 explores round-granular scenarios in lockstep virtual time (all phase timeouts equal); messages not delivered within their round are lost; in the Late configurations a leader message can also arrive one phase timeout late (stored, not acted on in time)",
 		"the Byzantine validator is Dolev-Yao: it recombines certificates and signatures seen on the network and signs with its own key",
 		"cryptographic hardness (BLS unforgeability, hash collision resistance) is assumed",
 	}
@@ -229,6 +263,7 @@ func Main(id string) {
 	var states []stateRec
 	var mu sync.Mutex
 	forkStates := 0
+	IncludeLate = id == "C01" || (id == "C15" && !r.Quick())
 	cfgs := Configs(r.Quick())
 	if id == "C01" {
 		cfgs = append([]NamedConfig{NegativeControl()}, cfgs...) // cheap, and must not be cut by the deadline
@@ -382,9 +417,14 @@ func Main(id string) {
 		if negativeForks == 0 && *cfgFlag == "" {
 			r.Note("negative control found no fork: the oracle was not shown to fire in this run")
 		}
-		devSearch(r, cfgs, cov, *cfgFlag)
+		if !*noDevFlag {
+			devSearch(r, cfgs, cov, *cfgFlag)
+		}
 	case "C15":
 		livenessPass(r, states, cov)
+		if *noDevFlag {
+			break
+		}
 		devLiveness(r, append(append([]NamedConfig{}, cfgs...), ChangeConfigs()...), cov, *cfgFlag)
 	case "C14":
 		evidencePass(r, states, cov)
